@@ -92,7 +92,7 @@ func verifC02(maxChunks int, sizes []int) {
 	verifAssert("C02.target-closed", target.closed >= 1)
 	// nothing limits how long the relay may last: no deadline is left on the client connection
 	// once the handshake is over (the handler's context has none)
-	verifAssert("C02.no-deadline-left-on-relay", len(conn.deadlines) == 2 && conn.deadlines[1].IsZero() && (len(conn.connDeadlines) == 0 || conn.connDeadlines[len(conn.connDeadlines)-1].IsZero()))
+	verifAssert("C02.no-deadline-left-on-relay", verifHandshakeDeadlineCleared(conn) && (len(conn.connDeadlines) == 0 || conn.connDeadlines[len(conn.connDeadlines)-1].IsZero()))
 	// C08: the response starts with a server-marked salt for the matched key
 	if len(back) > 0 {
 		ss := key.SaltSize()
@@ -278,11 +278,11 @@ func VH_C11_relay_survives_reload() {
 	verifAssert("C11.relay.cancel-happened-mid-relay", cancelled)
 	verifAssert("C11.relay.status-ok", len(m.closed) == 1 && m.closed[0] == "OK")
 	verifAssert("C11.relay.client-data-intact", len(target.written) == 5 && verifBytesEq(target.written, append(append([]byte{}, d1...), d2...)))
-	verifAssert("C11.relay.no-deadline-after-header", len(conn.deadlines) == 2 && conn.deadlines[1].IsZero() && len(target.deadlines) == 0)
+	verifAssert("C11.relay.no-deadline-after-header", verifHandshakeDeadlineCleared(conn) && len(target.deadlines) == 0)
 	// the same, as C02 states it: the target receives exactly what the client sent, and nothing
 	// arms a deadline on an established relay
 	verifAssert("C02.relay-across-listener-close.client-data-intact", len(target.written) == 5 && verifBytesEq(target.written, append(append([]byte{}, d1...), d2...)))
-	verifAssert("C02.relay-across-listener-close.no-deadline-on-the-relay", len(conn.deadlines) == 2 && conn.deadlines[1].IsZero())
+	verifAssert("C02.relay-across-listener-close.no-deadline-on-the-relay", verifHandshakeDeadlineCleared(conn))
 	verifQuiesce()
 	verifAssert("C18.relay-across-listener-close.no-goroutine-left", verifBlockedIn("proxyConnection") == 0)
 	verifReach("C11.relay.done", true)
